@@ -1,5 +1,6 @@
 (** C12 — streamed HTTP responses (SSE, multipart/mixed) are well-framed under any timing. *)
 From GV Require Import Base.Prelude Model.Sse Model.Multipart Model.SseLock Proofs.SseProofs Proofs.MultipartProofs Proofs.SseLockProofs Corr.Corr_C12.
+From GV Require Import Model.MpLock Proofs.MpLockInv Proofs.MpLockProofs.
 Open Scope list_scope.
 
 (** SSE.  For every sequence of payloads (their JSON has no raw CR/LF, as encoding/json guarantees), every way
@@ -71,3 +72,28 @@ Theorem C12_sse_unlocked_event_refuted :
   option_map (fun s => (sk_holder s, sk_out s)) (skrun v (skinit 1) [LTick; LKeepAlive; LHandler]) = Some (Some TK, [(IEv, false)]).
 Proof. exact unlocked_event_witness. Qed.
 Print Assumptions C12_sse_unlocked_event_refuted.
+
+(** ** multipart/mixed: the aggregator's lock discipline (Model.MpLock), over EVERY interleaving of the handler
+    goroutine (Add per response, then Done: signal and final flush, then the deferred Flush) and the ticker goroutine
+    (a flush per tick until it sees the signal), every use of the response writer taking two steps: *)
+
+(** the response writer is used by one goroutine at a time, and no use of it begins after the handler returned *)
+Theorem C12_multipart_writer_exclusive_nothing_after_return : forall rs tr s,
+  mprun true (mpinit rs) tr = Some s -> both_using s = false /\ m_late s = 0%nat.
+Proof. exact mp_exclusive_lemma. Qed.
+Print Assumptions C12_multipart_writer_exclusive_nothing_after_return.
+
+(** every response is written exactly once and in order; once the handler has returned all of them are on the wire *)
+Theorem C12_multipart_each_response_once_in_order : forall rs tr s,
+  mprun true (mpinit rs) tr = Some s ->
+  written s ++ m_pending s ++ m_todo s = rs /\ (returned s = true -> written s = rs).
+Proof. exact mp_once_in_order_lemma. Qed.
+Print Assumptions C12_multipart_each_response_once_in_order.
+
+(** the slip that releases the mutex before the network flush: the ticker is still inside Flush() when the handler's
+    final flush starts writing *)
+Theorem C12_multipart_unlock_before_flush_refuted :
+  exists s, mprun false (mpinit [1; 2]%nat) [MLHandler; MLTick; MLTicker; MLTicker; MLTicker; MLTicker; MLHandler; MLHandler; MLHandler; MLHandler; MLTicker] = Some s /\
+            both_using s = true.
+Proof. exact mp_unlock_before_flush_witness. Qed.
+Print Assumptions C12_multipart_unlock_before_flush_refuted.
